@@ -177,7 +177,7 @@ PROPS = {
             "registry stream: the extracted model also judges 'nothing unreachable is present' on the graph of every alias-free world (reachability from the roots over redirects and recorded dependencies); known finding F-C01a (entries orphaned by a content load that fails after the embedded module info was followed) is reported as KNOWN-FINDING",
             "the loader is a function of its arguments",
         ],
-        "partial": ["second layer: template arguments of dynamic imports, the source-map dependency and resolver-supplied types (resolve_types, default JSX import source) are not in the declaration model; theorems cover the descriptor fold, the whole declaration is tied by correspondence", "completeness (nothing reachable is absent) is proved for every world, for stage B1 (C01_complete) and for the registry stage (C01_registry_complete, no hypothesis on the world); the converse (nothing unreachable is present) is PROVED for stage B1 under the hypotheses it needs (C01_b1_sound: alias-free worlds without asset imports and without an npm resolver; invariant over every loop step, Proofs/SoundProofs.v); it is false without alias-freeness and, as F-C01c shows, false when an asset request is rejected at a target that was loaded as a module; for the registry stage it is not proved (C01_registry_sound_refuted); it is judged per case on every alias-free world (B1: RunJsrAll.c01_b1_judgement over the model graph, which equals the real one; registry: RunJsr.c01_judgement)"],
+        "partial": ["second layer: template arguments of dynamic imports, the source-map dependency and resolver-supplied types (resolve_types, default JSX import source) are not in the declaration model; theorems cover the descriptor fold, the whole declaration is tied by correspondence", "completeness (nothing reachable is absent) is proved for every world, for stage B1 (C01_complete) and for the registry stage (C01_registry_complete, no hypothesis on the world); the converse (nothing unreachable is present) is PROVED for stage B1 under the hypotheses it needs (C01_b1_sound: alias-free worlds without asset imports (with or without an npm resolver); invariant over every loop step, Proofs/SoundProofs.v); it is false without alias-freeness and, as F-C01c shows, false when an asset request is rejected at a target that was loaded as a module; for the registry stage it is not proved (C01_registry_sound_refuted); it is judged per case on every alias-free world (B1: RunJsrAll.c01_b1_judgement over the model graph, which equals the real one; registry: RunJsr.c01_judgement)"],
     },
     "C03": {
         "harness": "c03",
